@@ -49,18 +49,30 @@ Next ==
     \/ ("dup" \in Ops /\ open /\ \E x \in Names : SnapFile(x) \in DOMAIN disks /\ Snapshot(x, TRUE))
     \/ \E n \in ArgNames : PrepareRemove(n)
     \/ \E n \in ArgNames : CleanerPick(n)
-    \/ \E n \in DOMAIN disks : cleaner = [st |-> "prepared", name |-> n] /\ Coalesce(n)
+    \* environment: the merge runs seconds after the deletion was prepared, the puncher serves its
+    \* queue within milliseconds -- no punch for the merge target is still pending (one that ran
+    \* after the merge would remove blocks the target has just received: DESIGN.md 7, observations)
+    \/ \E n \in DOMAIN disks : /\ cleaner = [st |-> "prepared", name |-> n]
+                               /\ \A e \in holeQ : e[1] # disks[n].parent
+                               /\ Coalesce(n)
     \/ \E n \in ArgNames :
           /\ (InChain(n) /\ ~Protected(n)) => cleaner = [st |-> "folded", name |-> n]
           /\ RemoveDisk(n)
     \* C06 promises nothing about reverting to an automatic snapshot while
     \* reclamation is thinning it: with a punch in flight only user snapshots
-    \* (and invalid names) are reverted to
+    \* of the live chain (and invalid names) are reverted to.  (A user snapshot that
+    \* an earlier revert left outside the live chain is not protected either: its
+    \* ancestors in the chain are reclaimed like any automatic snapshot -- DESIGN.md 5, C06.)
     \/ ("revert" \in Ops /\ headN < MaxHead /\ \E n \in ArgNames :
-            /\ (n \in DOMAIN disks /\ n # HeadF /\ ~disks[n].user) => holeQ = {}
+            /\ (n \in DOMAIN disks /\ n # HeadF /\ (~disks[n].user \/ ~InChain(n))) => holeQ = {}
+            \* punches requested while the block map was unreliable (after a ReplaceDisk / sync)
+            \* have been carried out before the volume is loaded afresh
+            /\ stale => holeQ = {}
             /\ Revert(n))
     \/ ("resize" \in Ops /\ \E nb \in {size - 1, size, size + 1} \cap (0..MaxNB) : Resize(nb))
-    \/ ("reopen" \in Ops /\ (Close \/ Open \/ Reload \/ \E p \in BOOLEAN : SetPreload(p)))
+    \* (a reload belongs to a rebuild or clone; the cleaner only works on a replica that is in
+    \* service: no deletion is between merge and unlink when the volume is reloaded)
+    \/ ("reopen" \in Ops /\ (Close \/ Open \/ (cleaner.st = "idle" /\ Reload) \/ \E p \in BOOLEAN : SetPreload(p)))
     \/ ("mode" \in Ops /\ \E m \in {"RW", "WO", "ERR"} : SetMode(m))
     \/ ("meta" \in Ops /\ (\/ \E r \in BOOLEAN : SetRebuilding(r)
                            \/ \E n \in SnapFiles \cup {""} : SetCheckpoint(n)
